@@ -56,7 +56,7 @@ Qed.
 Theorem front_modes e files :
   no_ub (front e Release files) -> front e Debug files = front e Release files.
 Proof.
-  unfold front. destruct files as [|main rest]; [reflexivity|]. intro H.
+  unfold front, front_gen. destruct files as [|main rest]; [reflexivity|]. intro H.
   destruct (gather_files st_empty (main :: rest)) as [st| | |]; cbn [obind] in *; try reflexivity.
   destruct (functions_pass main) as [[]| | |]; cbn [obind] in *; try reflexivity.
   destruct (cycles_pass st main) as [order| | |]; cbn [obind] in *; try reflexivity.
@@ -94,7 +94,7 @@ Section Checked.
 
   Theorem front_modes_same e files : front e Debug files = front e Release files.
   Proof.
-    unfold front. destruct files as [|main rest]; [reflexivity|].
+    unfold front, front_gen. destruct files as [|main rest]; [reflexivity|].
     destruct (gather_files st_empty (main :: rest)) as [st| | |]; cbn [obind]; try reflexivity.
     destruct (functions_pass main) as [[]| | |]; cbn [obind]; try reflexivity.
     destruct (cycles_pass st main) as [order| | |]; cbn [obind]; try reflexivity.
